@@ -42,6 +42,15 @@ func (s *store) del(key []byte) error {
 	return b.Commit(context.Background())
 }
 
+// delExpired removes key if it still holds val, the value its ttl was set for
+func (s *store) delExpired(key []byte, val []byte) error {
+	b := s.BeginBatchWrite().(*batch)
+	if bytes.Equal(b.get(key), val) {
+		b.Del(key)
+	}
+	return b.Commit(context.Background())
+}
+
 func (s *store) delCurrent(iter storage.Iter) error {
 	b := s.BeginBatchWrite()
 	b.DelCurrent(iter)
@@ -157,7 +166,7 @@ func (b *batch) Commit(ctx context.Context) error {
 			b.store.skl.Remove(keyBytes)
 		} else {
 			if v.ttl != 0 {
-				b.asyncRemove(keyBytes, v.ttl)
+				b.asyncRemove(keyBytes, v.val, v.ttl)
 			}
 			b.store.skl.Set(keyBytes, v.val)
 		}
@@ -167,14 +176,15 @@ func (b *batch) Commit(ctx context.Context) error {
 	return nil
 }
 
-func (b *batch) asyncRemove(key []byte, seconds int64) {
+// asyncRemove expires val under key: a later write of the key, which carries its own ttl or none, is not touched
+func (b *batch) asyncRemove(key []byte, val []byte, seconds int64) {
 	if seconds == 0 {
 		return
 	}
 
 	go func(kvStorage storage.KvStorage) {
 		time.AfterFunc(time.Duration(seconds)*time.Second, func() {
-			_ = b.store.del(key)
+			_ = b.store.delExpired(key, val)
 		})
 	}(b.store)
 }
